@@ -333,6 +333,47 @@ theorem lon_increasing_neptune : StrictMonoOn (Spec.directSum Neptune_VSOP87_L) 
     Tables.Neptune.L_sumAbsAC (by norm_num [bSums, subAt1, expA, expC])
   exact h.mono (Set.Icc_subset_Icc (le_refl _) (by norm_num))
 
+/-! ### The secular acceleration: series L2 against the `T²` coefficient of the mean longitude.
+For the planets whose series L2 starts with the secular term `(A, 0, 0)` (Mercury, Venus, Earth, Uranus,
+Neptune; for Mars, Jupiter and Saturn the source lists a periodic term first), `A·t²` in 1e-8 rad per
+millennium², converted to degrees per century², equals `ORBITAL_ELEM[0][2]` to 5e-7°/century² (the values are
+≈ 3.0e-4): a dropped or shifted digit in the `t²` constant of a longitude series breaks this. -/
+theorem accel_matches_mercury :
+    (∃ a : Int, (Tables.Mercury.L.getD 2 []).head? = some (a, 0, 0)) ∧
+    |Spec.leadAccel Mercury_VSOP87_L - Spec.elemAccel Mercury_ORBITAL_ELEM| ≤ 0.0000005 := by
+  refine ⟨⟨_, Tables.Mercury.L_lead2⟩, ?_⟩
+  unfold Spec.leadAccel Mercury_VSOP87_L
+  rw [lead2_scaled _ _ _ _ Tables.Mercury.L_lead2]
+  apply accel_of_bounds <;> norm_num [Spec.elemAccel, Mercury_ORBITAL_ELEM, expA]
+theorem accel_matches_venus :
+    (∃ a : Int, (Tables.Venus.L.getD 2 []).head? = some (a, 0, 0)) ∧
+    |Spec.leadAccel Venus_VSOP87_L - Spec.elemAccel Venus_ORBITAL_ELEM| ≤ 0.0000005 := by
+  refine ⟨⟨_, Tables.Venus.L_lead2⟩, ?_⟩
+  unfold Spec.leadAccel Venus_VSOP87_L
+  rw [lead2_scaled _ _ _ _ Tables.Venus.L_lead2]
+  apply accel_of_bounds <;> norm_num [Spec.elemAccel, Venus_ORBITAL_ELEM, expA]
+theorem accel_matches_earth :
+    (∃ a : Int, (Tables.Earth.L.getD 2 []).head? = some (a, 0, 0)) ∧
+    |Spec.leadAccel Earth_VSOP87_L - Spec.elemAccel Earth_ORBITAL_ELEM| ≤ 0.0000005 := by
+  refine ⟨⟨_, Tables.Earth.L_lead2⟩, ?_⟩
+  unfold Spec.leadAccel Earth_VSOP87_L
+  rw [lead2_scaled _ _ _ _ Tables.Earth.L_lead2]
+  apply accel_of_bounds <;> norm_num [Spec.elemAccel, Earth_ORBITAL_ELEM, expA]
+theorem accel_matches_uranus :
+    (∃ a : Int, (Tables.Uranus.L.getD 2 []).head? = some (a, 0, 0)) ∧
+    |Spec.leadAccel Uranus_VSOP87_L - Spec.elemAccel Uranus_ORBITAL_ELEM| ≤ 0.0000005 := by
+  refine ⟨⟨_, Tables.Uranus.L_lead2⟩, ?_⟩
+  unfold Spec.leadAccel Uranus_VSOP87_L
+  rw [lead2_scaled _ _ _ _ Tables.Uranus.L_lead2]
+  apply accel_of_bounds <;> norm_num [Spec.elemAccel, Uranus_ORBITAL_ELEM, expA]
+theorem accel_matches_neptune :
+    (∃ a : Int, (Tables.Neptune.L.getD 2 []).head? = some (a, 0, 0)) ∧
+    |Spec.leadAccel Neptune_VSOP87_L - Spec.elemAccel Neptune_ORBITAL_ELEM| ≤ 0.0000005 := by
+  refine ⟨⟨_, Tables.Neptune.L_lead2⟩, ?_⟩
+  unfold Spec.leadAccel Neptune_VSOP87_L
+  rw [lead2_scaled _ _ _ _ Tables.Neptune.L_lead2]
+  apply accel_of_bounds <;> norm_num [Spec.elemAccel, Neptune_ORBITAL_ELEM, expA]
+
 /-! ### The wrappers -/
 
 /-- The per-planet methods (generated from the source) are the evaluators applied to the planet's own
@@ -388,6 +429,7 @@ theorem planets_defined (jde : ℝ) (f : Bool) :
 
 /-! ### non-vacuity: the objects the theorems speak about are the non-trivial ones -/
 
+example : Spec.elemAccel Venus_ORBITAL_ELEM = 0.00031014 := by norm_num [Spec.elemAccel, Venus_ORBITAL_ELEM]
 example : Spec.elemRate Venus_ORBITAL_ELEM = 58519.2130302 := by norm_num [Spec.elemRate, Venus_ORBITAL_ELEM]
 example : Spec.semiMajorAxis Neptune_ORBITAL_ELEM = 30.110386869 := by norm_num [Spec.semiMajorAxis, Neptune_ORBITAL_ELEM]
 example : Spec.leadAmp Mercury_VSOP87_L = 2608814706222.746 := by
